@@ -260,7 +260,11 @@ def oracle_history(case):
                     if is_raised(r):
                         out.fail("history-read-raises|" + r.bucket, "step %d %r: %s\n%s" % (step, op, r, texts[ti]))
                         break
-                    fresh = canonical(lasio.read(texts[ti]))
+                    fr = attempt(lasio.read, texts[ti])
+                    if is_raised(fr):
+                        out.fail("history-read-raises|" + fr.bucket, "step %d %r: the fresh read for comparison raised %s\n%s" % (step, op, fr, texts[ti][:600]))
+                        break
+                    fresh = canonical(fr)
                     c = canonical(reuse_obj)
                     # a section the text does not have reads as empty in a fresh object and keeps the earlier file's content
                     # in a used one: only sections with content in the fresh reading are compared
